@@ -1226,6 +1226,15 @@ func c14side(p *Program, r *Report, rule string) {
 		p.runTable(r, tableSpec{
 			Rule: rule, Fn: fn,
 			Atoms: []Atom{boolAtom("Conn.client"), boolAtom("compressionOptions.clientNoContextTakeover"), boolAtom("compressionOptions.serverNoContextTakeover")},
+			Decide: func(v Valuation) func(string, AV) (bool, bool) {
+				return func(key string, cond AV) (bool, bool) {
+					// the table is about connections that negotiated compression: the options exist
+					if key == "(Conn.copts == nil)" || key == "(nil == Conn.copts)" {
+						return false, true
+					}
+					return false, false
+				}
+			},
 			Classify: func(v Valuation, pa *Path) string {
 				if b, ok := avBool(pa.Ret[0]); ok {
 					return fmt.Sprint(b)
@@ -1252,6 +1261,14 @@ func c14sideUse(p *Program, r *Report, rule string) {
 	if fn := p.Func("msgReader.resetFlate"); fn != nil {
 		p.runTable(r, tableSpec{
 			Rule: rule + ".reader", Fn: fn, Atoms: atoms, Inline: inl,
+			Decide: func(v Valuation) func(string, AV) (bool, bool) {
+				return func(key string, cond AV) (bool, bool) {
+					if key == "(Conn.copts == nil)" || key == "(nil == Conn.copts)" {
+						return false, true // compression was negotiated: the options exist
+					}
+					return false, false
+				}
+			},
 			Classify: func(v Valuation, pa *Path) string {
 				gf := pa.Calls("getFlateReader")
 				if len(gf) != 1 {
@@ -1284,6 +1301,9 @@ func c14sideUse(p *Program, r *Report, rule string) {
 				return func(key string, cond AV) (bool, bool) {
 					if strings.HasPrefix(key, "(call:mu.lock@") || strings.HasPrefix(key, "(call:Conn.writeFrame@") || strings.HasPrefix(key, "(call:(*flate.Writer).Flush@") {
 						return true, true
+					}
+					if key == "(Conn.copts == nil)" || key == "(nil == Conn.copts)" {
+						return false, true // compression was negotiated: the options exist
 					}
 					return false, false
 				}
@@ -1358,8 +1378,11 @@ func cTokens(p *Program, r *Report, rule string) {
 		p.forAllPaths(r, rule, fn, "comma-separated, trimmed tokens of all header lines", Opts{Unroll: 2},
 			"headerTokens canonicalises the key, ranges over every value of h[key], splits each on \",\" and appends every TrimSpace'd piece",
 			func(pa *Path) (bool, string) {
+				// all lines of the header under its canonical key: h[CanonicalMIMEHeaderKey(key)] or h.Values(key), which does the same
 				ck := pa.Calls("textproto.CanonicalMIMEHeaderKey")
-				if len(ck) != 1 || argKey(ck[0], 0) != "param:key" {
+				vals := pa.Calls("(http.Header).Values")
+				byValues := len(ck) == 0 && len(vals) == 1 && argKey(vals[0], 0) == "param:h" && argKey(vals[0], 1) == "param:key"
+				if !byValues && (len(ck) != 1 || argKey(ck[0], 0) != "param:key") {
 					return false, "key not canonicalised"
 				}
 				for _, sp := range pa.Calls("strings.Split") {
@@ -1367,6 +1390,12 @@ func cTokens(p *Program, r *Report, rule string) {
 						return false, "split on " + argKey(sp, 1)
 					}
 					src := expandCalls(pa, argKey(sp, 0))
+					if byValues {
+						if !strings.Contains(src, "(http.Header).Values(param:h,param:key)") {
+							return false, "splits " + src
+						}
+						continue
+					}
 					if !strings.Contains(src, "lookup:") || !strings.Contains(src, "param:h,textproto.CanonicalMIMEHeaderKey(param:key)") {
 						return false, "splits " + src
 					}
